@@ -10,13 +10,18 @@ type work struct {
 // startWorker starts a new resource worker that will listen for resources to
 // process requests on.
 func (s *Service) startWorker() {
+	vhook("wk.start")
 	s.mu.Lock()
+	vhook("wk.locked")
 	defer s.mu.Unlock()
 	defer s.wg.Done()
+	defer vhook("wk.exit")
 	// workqueue being nil signals we the service is closing
 	for s.workqueue != nil {
 		for len(s.workqueue) == 0 {
+			vhook("wk.park")
 			s.workcond.Wait()
+			vhook("wk.wake", s.workqueue == nil)
 			if s.workqueue == nil {
 				return
 			}
@@ -27,6 +32,7 @@ func (s *Service) startWorker() {
 		} else {
 			s.workqueue = s.workqueue[1:]
 		}
+		vhook("wk.pop", w.wid, len(s.workqueue))
 		w.processQueue()
 	}
 }
@@ -37,13 +43,18 @@ func (w *work) processQueue() {
 
 	for len(w.queue) > idx {
 		f = w.queue[idx]
+		vhook("pq.take", w.wid, idx, len(w.queue))
 		w.s.mu.Unlock()
 		idx++
+		vhook("pq.run", w.wid)
 		f()
+		vhook("pq.ran", w.wid)
 		w.s.mu.Lock()
+		vhook("pq.relock", w.wid)
 	}
 	// Work complete. Delete if it has a work ID.
 	if w.wid != "" {
 		delete(w.s.rwork, w.wid)
 	}
+	vhook("pq.retire", w.wid)
 }
